@@ -1,0 +1,355 @@
+//go:build verif
+
+// Contracts for the deductive verification in /verif (govc): JSON and name-table helpers of
+// package x509 (properties C02, C33). This file contains comments only; it is compiled only
+// with -tags verif and declares nothing.
+
+package x509
+
+
+// ---------------------------------------------------------------- json.go: enumerations
+// C33/C02: encoders and decoders of the enumerated types are total. json.Marshal /
+// json.Unmarshal are opaque (assumed: no panic, Unmarshal writes only the object it is given,
+// /verif/extern/tlslog.contracts, revocation.contracts), so what is decoded into the auxiliary
+// struct is arbitrary: every member may be absent (zero), every slice of any length.
+//@ func (KeyUsage).MarshalJSON
+//@   modifies nothing
+//@   terminates
+//@ func (*KeyUsage).UnmarshalJSON
+//@   requires k != nil
+//@   modifies *k
+//@   terminates
+
+// The name table of names.go / x509.go (transcribed from its composite literal).
+//@ global len(keyAlgorithmNames) == 6 && keyAlgorithmNames[0] == "unknown_algorithm" && keyAlgorithmNames[1] == "RSA" && keyAlgorithmNames[2] == "DSA" && keyAlgorithmNames[3] == "ECDSA" && keyAlgorithmNames[4] == "Ed25519" && keyAlgorithmNames[5] == "X25519"
+// The decoder's table (json.go, publicKeyNameToAlgorithm), transcribed from its literal: exactly
+// these five names.
+//@ global has(publicKeyNameToAlgorithm, "RSA") && publicKeyNameToAlgorithm["RSA"] == RSA && has(publicKeyNameToAlgorithm, "DSA") && publicKeyNameToAlgorithm["DSA"] == DSA && has(publicKeyNameToAlgorithm, "ECDSA") && publicKeyNameToAlgorithm["ECDSA"] == ECDSA && has(publicKeyNameToAlgorithm, "Ed25519") && publicKeyNameToAlgorithm["Ed25519"] == Ed25519 && has(publicKeyNameToAlgorithm, "X25519") && publicKeyNameToAlgorithm["X25519"] == X25519
+//@ global forallv(k, string, has(publicKeyNameToAlgorithm, k) ==> k == "RSA" || k == "DSA" || k == "ECDSA" || k == "Ed25519" || k == "X25519")
+// C33 "public-key ... algorithm names: decoding the encoded JSON ... yields an equal value".
+// MarshalJSON emits p.String(); UnmarshalJSON stores publicKeyNameToAlgorithm[name] (the zero
+// value UnknownPublicKeyAlgorithm for a name that is not in the table). [names]: the emitted
+// name is the table entry, out-of-range values are named like UnknownPublicKeyAlgorithm.
+// [inverse]: for every declared algorithm the decoder's table maps the emitted name back to
+// it; [inverse0]: the name of UnknownPublicKeyAlgorithm is not in the decoder's table, so it
+// decodes to the zero value, which is UnknownPublicKeyAlgorithm. (Before commit d59216b
+// [inverse] failed for Ed25519 and X25519, see the notes.)
+//@ func (PublicKeyAlgorithm).String
+//@   ensures [names] result == keyAlgorithmNames[ite(0 <= p && p < total_key_algorithms, p, UnknownPublicKeyAlgorithm)]
+//@   ensures [inverse] 0 < p && p < total_key_algorithms ==> has(publicKeyNameToAlgorithm, result) && publicKeyNameToAlgorithm[result] == p
+//@   ensures [inverse0] !(0 < p && p < total_key_algorithms) ==> !has(publicKeyNameToAlgorithm, result)
+//@   modifies nothing
+//@   terminates
+
+//@ func (SignatureAlgorithm).String
+//@   modifies nothing
+//@   terminates
+
+//@ func (*PublicKeyAlgorithm).MarshalJSON
+//@   requires p != nil
+//@   modifies nothing
+//@   terminates
+//@ func (*PublicKeyAlgorithm).UnmarshalJSON
+//@   requires p != nil
+//@   modifies *p
+//@   terminates
+
+//@ func (*SignatureAlgorithm).MarshalJSON
+//@   requires s != nil
+//@   loop 1 invariant fresh(aux.OID) && forallv(q, *int, old(allocated(q)) ==> *q == old(*q))
+//@   loop 2 invariant fresh(aux.OID) && len(aux.OID) == len(val.oid) && forallv(q, *int, old(allocated(q)) ==> *q == old(*q))
+//@   modifies nothing
+//@   terminates
+//@ func (*SignatureAlgorithm).UnmarshalJSON
+//@   requires s != nil
+//@   modifies *s
+//@   terminates
+
+// ---------------------------------------------------------------- certificate policies (C02)
+// What the certificate-policies block of parseCertificate (x509.go, `case 32`) establishes for
+// the seven per-policy lists it fills (JsonifyExtensions copies them unchanged into the
+// CertificatePoliciesData): all seven are made with len(policies) entries; per policy i, one
+// entry is appended to ParsedExplicitTexts[i] for every user notice WITH an explicit text, one
+// entry to NoticeRefNumbers[i] and to ParsedNoticeRefOrganization[i] for every user notice
+// WITH a notice reference, one entry to UserNotices[i] for every user notice. Hence: equal
+// outer lengths; the two notice-reference lists have equal inner lengths; both the text list
+// and the reference lists are at most as long as UserNotices[i]. NOTHING relates the inner
+// length of ExplicitTexts[i] to that of NoticeRefOrganization[i].
+//@ pred polOuter(cp) = len(cp.QualifierId) == len(cp.PolicyIdentifiers) && len(cp.CPSUri) == len(cp.PolicyIdentifiers) && len(cp.ExplicitTexts) == len(cp.PolicyIdentifiers) && len(cp.NoticeRefOrganization) == len(cp.PolicyIdentifiers) && len(cp.NoticeRefNumbers) == len(cp.PolicyIdentifiers) && len(cp.UserNotices) == len(cp.PolicyIdentifiers)
+//@ pred polInner(cp) = forall(i, 0, len(cp.PolicyIdentifiers), len(cp.NoticeRefNumbers[i]) == len(cp.NoticeRefOrganization[i]) && len(cp.ExplicitTexts[i]) <= len(cp.UserNotices[i]) && len(cp.NoticeRefOrganization[i]) <= len(cp.UserNotices[i]))
+// Type safety of the argument: the object exists at entry.
+//@ pred polAlloc(cp) = allocated(cp)
+// Loop frame (helper): no string and no slice header that existed at entry has changed (govc's
+// inferred loop frame gives up on `x.f = append(x.f, ...)` for an address-taken local x and
+// forgets every string and slice header at the loop heads; the appended-to slices are new).
+//@ pred keptStr() = forallv(q, *string, old(allocated(q)) ==> *q == old(*q), *q)
+//@ pred keptSlice() = forallv(q, *[]string, old(allocated(q)) ==> same(*q, old(*q)), *q)
+// C02: "JSON serialisation ... complete[s] without panicking" for every parsed certificate,
+// under exactly what the parser establishes; nothing that existed before is written.
+// History: before commit 97f315a the bounds obligations of NoticeRefOrganization[idx][idx2] and
+// NoticeRefNumbers[idx][idx2] (idx2 an index of ExplicitTexts[idx]) failed - defect S6, see
+// /verif/notes/x509json.md.
+//@ func (*CertificatePoliciesData).MarshalJSON
+//@   requires cp != nil && polOuter(cp) && polInner(cp) && polAlloc(cp)
+//@   loop 1 invariant fresh(policies) && keptStr() && keptSlice()
+//@   loop 2 invariant fresh(cpsJSON.CPSUri) && keptStr() && keptSlice()
+//@   loop 3 invariant fresh(cpsJSON.UserNotice) && keptStr() && keptSlice()
+//@   loop 4 invariant fresh(cpsJSON.UserNotice) && keptStr() && keptSlice()
+//@   modifies nothing
+//@   terminates
+
+// ---------------------------------------------------------------- extensions.go: general names
+// C33 (general names): encoder and decoder are total. The decoder turns every registered-id
+// text into an identifier with one arc per '.'-separated part (strings.Split, assumed:
+// at least one part for a one-byte separator); a part that is not a 32-bit decimal number is
+// an error.
+//@ func (*GeneralNames).MarshalJSON
+//@   requires gn != nil
+//@   modifies all
+//@   terminates
+//@ func (*GeneralNames).UnmarshalJSON
+//@   requires gn != nil
+//@   loop 1 invariant same(gn.RegisteredIDs, atentry(gn.RegisteredIDs)) && fresh(gn.RegisteredIDs)
+//@   modifies all
+//@   terminates
+
+// ---------------------------------------------------------------- extensions.go: name constraints
+//@ func (*NameConstraints).UnmarshalJSON
+//@   requires nc != nil
+//@   modifies all
+//@   terminates
+//@ func (NameConstraints).MarshalJSON
+//@   modifies all
+//@   terminates
+
+// ---------------------------------------------------------------- extensions.go: small encoders
+//@ func (SubjAuthKeyId).MarshalJSON
+//@   modifies nothing
+//@   terminates
+//@ func (*auxExtendedKeyUsage).populateFromExtKeyUsage
+//@   requires aux != nil
+//@   modifies *aux
+//@   terminates
+//@ func (*ExtendedKeyUsageExtension).MarshalJSON
+//@   requires e != nil
+//@   modifies all
+//@   terminates
+//@ func (*ExtendedKeyUsageExtension).UnmarshalJSON
+//@   requires e != nil
+//@   modifies nothing
+//@   terminates
+// stringer table (generated_certvalidationlevel_string.go), transcribed from its literal.
+//@ global _CertValidationLevel_index[0] == 0 && _CertValidationLevel_index[1] == 22 && _CertValidationLevel_index[2] == 24 && _CertValidationLevel_index[3] == 26 && _CertValidationLevel_index[4] == 28
+//@ func (CertValidationLevel).String
+//@   modifies nothing
+//@   terminates
+//@ func (*CertValidationLevel).MarshalJSON
+//@   requires c != nil
+//@   modifies nothing
+//@   terminates
+//@ func (*CertificateFingerprint).MarshalJSON
+//@   requires f != nil
+//@   modifies nothing
+//@   terminates
+//@ func (CertificateType).MarshalJSON
+//@   modifies nothing
+//@   terminates
+//@ func (*CertificateType).UnmarshalJSON
+//@   requires t != nil
+//@   modifies *t
+//@   terminates
+
+// ---------------------------------------------------------------- json.go: signature algorithm of a certificate
+//@ pred keptInt() = forallv(q, *int, old(allocated(q)) ==> *q == old(*q), *q)
+// "gathers the necessary fields in a Certificate into a JSONSignatureAlgorithm": the OID is a
+// copy of the certificate's (this is what "preserves the OID originally in the certificate" means).
+//@ func (*Certificate).jsonifySignatureAlgorithm
+//@   requires c != nil
+//@   loop 1 invariant fresh(aux.OID) && len(aux.OID) == len(c.SignatureAlgorithmOID) && keptInt()
+//@   loop 1 invariant forall(k, 0, it, aux.OID[k] == c.SignatureAlgorithmOID[k])
+//@   ensures len(result.OID) == len(c.SignatureAlgorithmOID) && forall(k, 0, len(result.OID), result.OID[k] == c.SignatureAlgorithmOID[k])
+//@   ensures fresh(result.OID)
+//@   modifies nothing
+//@   terminates
+
+// "SignatureAlgorithmName / PublicKeyAlgorithmName": total.
+//@ func (*Certificate).SignatureAlgorithmName
+//@   requires c != nil
+//@   modifies nothing
+//@   terminates
+//@ func (*Certificate).PublicKeyAlgorithmName
+//@   requires c != nil
+//@   modifies nothing
+//@   terminates
+
+// ---------------------------------------------------------------- json.go: validity
+//@ func clampTime
+//@   modifies nothing
+//@   terminates
+//@ func (*validity).MarshalJSON
+//@   requires v != nil
+//@   modifies nothing
+//@   terminates
+//@ func (*validity).UnmarshalJSON
+//@   requires v != nil
+//@   modifies *v
+//@   terminates
+
+// ---------------------------------------------------------------- json.go: subject key
+// The key objects are well formed (keyOK, /verif/extern/x509sig.contracts: what
+// x509.parsePublicKey promises for every key it returns).
+//@ func GetDSAPublicKeyJSON
+//@   requires dsaKeyOK(key)
+//@   ensures result != nil
+//@   modifies nothing
+//@   terminates
+//@ func GetRSAPublicKeyJSON
+//@   ensures result != nil && result.PublicKey == key
+//@   modifies nothing
+//@   terminates
+//@ func GetECDSAPublicKeyJSON
+//@   requires ecKeyOK(key)
+//@   ensures result != nil
+//@   modifies nothing
+//@   terminates
+//@ func GetAugmentedECDSAPublicKeyJSON
+//@   requires augKeyOK(key)
+//@   ensures result != nil
+//@   modifies nothing
+//@   terminates
+// C02: JSON serialisation of a parsed certificate - the subject-key part.
+// Frame left open: the four-way type switch with nine allocating calls per branch makes the
+// frame obligations slow (25-30 s each, one not decided); see the notes, "unverified".
+//@ func (*Certificate).jsonifySubjectKey
+//@   requires c != nil && keyOK(c.PublicKey)
+//@   modifies all
+//@   terminates
+
+// ---------------------------------------------------------------- json.go: names (C02 "name collection", determinism)
+// "must sort to ensure output is deterministic": the result is in Go's string order
+// (spec.sle, through sort.Strings' assumed contract) and holds only strings of the input.
+// Not stated (see the notes, "unverified"): that no string occurs twice and that every input
+// string occurs - govc's model of `range` over a map yields an arbitrary key per iteration
+// (no each-key-once, no termination).
+//@ pred sortedStr(s) = forall(i, 0, len(s) - 1, spec.sle(s[i], s[i+1]))
+//@ func purgeNameDuplicates
+//@   loop 1 invariant 0 <= len(hashset) && len(hashset) <= it
+//@   loop 2 invariant fresh(out)
+//@   ensures [sorted] sortedStr(out)
+//@   modifies nothing
+
+//@ func isValidName
+//@   decreases len(name)
+//@   modifies nothing
+//@   terminates
+
+//@ func (*Certificate).CollectAllNames
+//@   requires c != nil
+//@   loop 1 invariant fresh(names)
+//@   loop 2 invariant fresh(names)
+//@   loop 3 invariant fresh(names)
+//@   ensures [sorted] sortedStr(result)
+//@   modifies nothing
+
+// ---------------------------------------------------------------- json.go: certificate
+// "intentionally implemented to always error"
+//@ func (*JSONCertificate).UnmarshalJSON
+//@   ensures result != nil
+//@   modifies nothing
+//@   terminates
+//@ func (*Certificate).UnmarshalJSON
+//@   ensures result != nil
+//@   modifies nothing
+//@   terminates
+//@ func (*JSONCertificateWithRaw).ParseRaw
+//@   requires c != nil
+//@   modifies nothing
+//@   terminates
+
+// ---------------------------------------------------------------- json.go: IP subtrees
+// "The last IP (inclusive) is ip | ^mask": nil unless both have the same length 4 or 16.
+//@ func orMask
+//@   loop 1 invariant fresh(out) && len(out) == len(ip) && forall(k, 0, it, out[k] == ip[k] | mask[k])
+//@   ensures result != nil <==> ((len(ip) == 4 || len(ip) == 16) && len(mask) == len(ip))
+//@   ensures result != nil ==> len(result) == len(ip) && forall(k, 0, len(ip), result[k] == ip[k] | mask[k])
+//@   modifies nothing
+//@   terminates
+//@ func invertMask
+//@   loop 1 invariant fresh(out) && len(out) == len(mask) && forall(k, 0, it, out[k] == ^mask[k])
+//@   ensures result != nil <==> mask != nil
+//@   ensures len(result) == len(mask) && forall(k, 0, len(mask), result[k] == ^mask[k])
+//@   modifies nothing
+//@   terminates
+//@ func (*GeneralSubtreeIP).MarshalJSON
+//@   requires g != nil
+//@   modifies nothing
+//@   terminates
+//@ func (*GeneralSubtreeIP).UnmarshalJSON
+//@   requires g != nil
+//@   modifies *g
+//@   terminates
+
+// ---------------------------------------------------------------- extensions.go / json.go: the certificate
+// certPol(c): what parseCertificate establishes for the per-policy lists of a certificate (the
+// same facts as polOuter / polInner above, on the certificate's own fields).
+//@ pred certPolOuter(c) = len(c.QualifierId) == len(c.PolicyIdentifiers) && len(c.CPSuri) == len(c.PolicyIdentifiers) && len(c.ParsedExplicitTexts) == len(c.PolicyIdentifiers) && len(c.ParsedNoticeRefOrganization) == len(c.PolicyIdentifiers) && len(c.NoticeRefNumbers) == len(c.PolicyIdentifiers) && len(c.UserNotices) == len(c.PolicyIdentifiers)
+//@ pred certPolInner(c) = forall(i, 0, len(c.PolicyIdentifiers), len(c.NoticeRefNumbers[i]) == len(c.ParsedNoticeRefOrganization[i]) && len(c.ParsedExplicitTexts[i]) <= len(c.UserNotices[i]) && len(c.ParsedNoticeRefOrganization[i]) <= len(c.UserNotices[i]))
+// JsonifyExtensions: total; both results exist; the certificate-policies view it builds
+// satisfies the precondition of (*CertificatePoliciesData).MarshalJSON whenever the
+// certificate's lists are as the parser leaves them (the link between the parser and the
+// encoder for C02: json.Marshal reaches that MarshalJSON through this object).
+//@ func (*Certificate).JsonifyExtensions
+//@   requires c != nil
+//@   loop 1 invariant fresh(unk) && exts != nil && fresh(exts)
+//@   loop 1 invariant exts.CertificatePolicies != nil ==> fresh(exts.CertificatePolicies) && same(exts.CertificatePolicies.PolicyIdentifiers, c.PolicyIdentifiers) && same(exts.CertificatePolicies.QualifierId, c.QualifierId) && same(exts.CertificatePolicies.CPSUri, c.CPSuri) && same(exts.CertificatePolicies.ExplicitTexts, c.ParsedExplicitTexts) && same(exts.CertificatePolicies.NoticeRefOrganization, c.ParsedNoticeRefOrganization) && same(exts.CertificatePolicies.NoticeRefNumbers, c.NoticeRefNumbers) && same(exts.CertificatePolicies.UserNotices, c.UserNotices)
+//@   ensures result0 != nil && fresh(result0)
+//@   ensures [policies] result0.CertificatePolicies != nil && certPolOuter(c) && certPolInner(c) ==> polOuter(result0.CertificatePolicies) && polInner(result0.CertificatePolicies)
+//@   modifies nothing
+//@   terminates
+
+// C02: "For every certificate that ParseCertificate accepts ... JSON serialisation ...
+// complete[s] without panicking": the part of (*Certificate).MarshalJSON that is Go code of this
+// package (json.Marshal itself is assumed; the MarshalJSON methods it calls on the members are
+// under contract above). keyOK: what parsePublicKey promises.
+//@ func (*Certificate).MarshalJSON
+//@   requires c != nil && keyOK(c.PublicKey)
+//@   modifies all
+//@   terminates
+
+// ---------------------------------------------------------------- qc_statements.go
+//@ func (*QCStatementASN).MarshalJSON
+//@   requires s != nil
+//@   modifies nothing
+//@   terminates
+//@ func (*QCType).MarshalJSON
+//@   requires qt != nil
+//@   modifies all
+//@   terminates
+// C02/C01: total on every decoded statement list (any identifiers, any statementInfo bytes -
+// attacker-controlled; asn1.Unmarshal is assumed: an error, never a panic).
+//@ func (*QCStatements).Parse
+//@   requires q != nil && in != nil
+//@   loop 1 invariant same(q.StatementIDs, atentry(q.StatementIDs)) && same(in.QCStatements, atentry(in.QCStatements))
+//@   ensures result == nil ==> q.ParsedStatements != nil && len(q.StatementIDs) == len(in.QCStatements)
+//@   modifies all
+//@   terminates
+
+// ---------------------------------------------------------------- tor_service_descriptor.go
+// "unmarshals a SEQUENCE from the provided data and parses a TorServiceDescriptorHash ... The
+// TorServiceDescriptorHash object and the remaining data are returned if no error occurs":
+// on success the object exists and the remaining data is a proper suffix (asn1.Unmarshal's
+// assumed contract, /verif/extern/ocsp.contracts: an element has at least two octets).
+//@ func parseTorServiceDescriptorHash
+//@   ensures result2 == nil ==> result0 != nil && len(result1) + 2 <= len(data)
+//@   ensures result2 != nil ==> result0 == nil
+//@   modifies nothing
+//@   terminates
+// "returns a slice of parsed TorServiceDescriptorHash objects, or an error": total on attacker
+// bytes, terminates (every round consumes at least two octets), never both results.
+//@ func parseTorServiceDescriptorSyntax
+//@   loop 1 invariant fresh(descriptors) && forall(k, 0, len(descriptors), descriptors[k] != nil)
+//@   loop 1 decreases len(rest)
+//@   ensures result1 == nil ==> forall(k, 0, len(result0), result0[k] != nil)
+//@   ensures result1 != nil ==> result0 == nil
+//@   modifies nothing
+//@   terminates
